@@ -358,6 +358,7 @@ func freshReference(env *Env, root string, args []string, outID string) *lineRef
 	cmd.Env = append(os.Environ(), "VERIF_MODE=ref", "VERIF_REF_ROOT="+root, "VERIF_REF_ARGS="+string(ab), "VERIF_REF_OUTID="+outID, "VERIF_OUT="+outFile, "VERIF_SCRATCH="+env.Scratch)
 	var eb bytes.Buffer
 	cmd.Stderr, cmd.Stdout = &eb, &eb
+	cmd.Dir = env.Scratch // a relative result folder named on the line is created here
 	if err := cmd.Start(); err != nil {
 		return nil
 	}
@@ -679,7 +680,8 @@ func execBatch(sc *Scenario, env *Env) *Result {
 		sem := make(chan struct{}, envInt("VERIF_REF_PAR", 4))
 		var wg sync.WaitGroup
 		for i := range sc.Lines {
-			key := fmt.Sprint(sc.Lines[i].World, "|", strings.Join(sc.Lines[i].Extra, " "), "|", strings.Join(sc.Lines[i].Drop, " "))
+			// (references are shared by renaming the polygon id inside the files, which only works between ids of one length)
+			key := fmt.Sprint(sc.Lines[i].World, "|", strings.Join(sc.Lines[i].Extra, " "), "|", strings.Join(sc.Lines[i].Drop, " "), "|", len(sc.polyOf(i)))
 			if j, ok := same[key]; ok {
 				refs[i] = &lineRef{sameAs: j + 1}
 				continue
@@ -914,6 +916,24 @@ func init() {
 					}
 					sc.Params["twins"] = "1"
 				}
+				if sc.Params["mode"] == "realbin" && r.Bool(0.5) {
+					// stratum (real disk only): the simulator is started from another directory than the working directory and
+					// every line names a relative result folder (resolved against the directory the process runs in)
+					sc.Params["relres"] = "1"
+					for i := range sc.Lines {
+						sc.Lines[i].Extra = append(sc.Lines[i].Extra, "resultfolder=RES")
+					}
+				}
+				if sc.Params["mode"] == "realbin" && sc.Params["twins"] == "" && len(sc.Lines) >= 2 && r.Bool(0.4) {
+					// stratum (real disk only): the output id of one line is the tail of another line's output id
+					// (polygon ids "L03" and "AL03" on the same plot): nothing that goes by file-name patterns may mix them up
+					j := r.Intn(len(sc.Lines))
+					k := (j + 1 + r.Intn(len(sc.Lines)-1)) % len(sc.Lines)
+					sc.Lines[k].World = sc.Lines[j].World
+					sc.Lines[k].Extra = append([]string{}, sc.Lines[j].Extra...)
+					sc.Lines[k].OutTag = "A" + sc.polyOf(j)
+					sc.Params["suffixids"] = "1"
+				}
 			}
 			if r.Bool(0.3) {
 				sc.Params["log"] = "0"
@@ -995,6 +1015,17 @@ func execRealBinary(sc *Scenario, env *Env, root string, refs []*lineRef, order 
 		bin = filepath.Join(verifRoot(), ".build", "hermes2go")
 	}
 	r := NewRNG(sc.Sched.Sub).Sub("realbin", 0)
+	startDir := root
+	resDir := func(i int) string { return filepath.Dir(resultPathOf(sc, root, i, "x")) }
+	if sc.Params["relres"] != "" {
+		startDir = filepath.Join(root, "startdir")
+		os.MkdirAll(startDir, 0o755)
+		resDir = func(i int) string { return filepath.Join(startDir, "RES") }
+		res.add("realbin.started-elsewhere-with-relative-result-folder", 1)
+	}
+	if sc.Params["suffixids"] != "" {
+		res.add("realbin.output-id-is-tail-of-another", 1)
+	}
 	bf := filepath.Join(root, "batch.txt")
 	os.WriteFile(bf, []byte(strings.Join(batchLinesText(sc, order, false), "\n")+"\n"), 0o644)
 	once := func() (*BatchOutcome, string) {
@@ -1002,7 +1033,7 @@ func execRealBinary(sc *Scenario, env *Env, root string, refs []*lineRef, order 
 		for i := range sc.Lines {
 			for name, data := range refs[i].files {
 				if r.Bool(0.7) {
-					p := resultPathOf(sc, root, i, name)
+					p := filepath.Join(resDir(i), name)
 					os.MkdirAll(filepath.Dir(p), 0o755)
 					os.WriteFile(p, append(append([]byte{}, data...), []byte("STALE RECORD OF AN EARLIER SESSION\r\nSTALE\r\n")...), 0o644)
 					res.add("fault.stale-file-real-disk", 1)
@@ -1014,16 +1045,33 @@ func execRealBinary(sc *Scenario, env *Env, root string, refs []*lineRef, order 
 			argv = append(argv, "-logoutput")
 		}
 		cmd := exec.Command(bin, argv...)
-		cmd.Dir = root
+		cmd.Dir = startDir
 		outB, err := cmd.CombinedOutput()
 		disk := NewSimDisk()
+		dirs := map[string]bool{}
+		for i := range sc.Lines {
+			dirs[resDir(i)] = true
+		}
 		for _, w := range sc.Worlds {
-			dir := filepath.Join(root, "project", w.Loc, "RESULT")
+			dirs[filepath.Join(root, "project", w.Loc, "RESULT")] = true
+		}
+		var dl []string
+		for d := range dirs {
+			dl = append(dl, d)
+		}
+		sort.Strings(dl)
+		for _, dir := range dl {
 			ents, _ := os.ReadDir(dir)
 			for _, e := range ents {
 				if b, rerr := os.ReadFile(filepath.Join(dir, e.Name())); rerr == nil {
-					disk.Plant(root+"/project/"+w.Loc+"/RESULT/"+e.Name(), b)
+					disk.Plant(dir+"/"+e.Name(), b)
 				}
+			}
+		}
+		if sc.Params["relres"] != "" {
+			// nothing may land below the working directory's own copy of the relative folder
+			if ents, _ := os.ReadDir(filepath.Join(root, "RES")); len(ents) > 0 {
+				disk.Plant(root+"/RES/"+ents[0].Name()+".MISPLACED", []byte("x"))
 			}
 		}
 		msg := ""
